@@ -434,13 +434,14 @@ PROPS = {
     "C02": dict(
         bins={"main": dict(tc="gcc", src="prop_C02.cpp", variants=["plain"])},
         parts=[
-            dict(name="random", workers={Q: 12, T: 14}, cases={Q: 40000, T: 600000}),
+            dict(name="random", workers={Q: 12, T: 6}, cases={Q: 40000, T: 1500000}),
             dict(name="pairs4x4", kind="enum", workers={Q: 4, T: 2}),
+            dict(name="pairs5x5", kind="enum", workers={Q: 0, T: 8}),
         ],
         rule=("cases = sets of closed rectilinear walks/rectangles on a random lattice (2..9 lines, steps 1..2^58/G, "
               "random origin), each executed under 4 clip types x 4 fill rules x PreserveCollinear on/off and judged "
               "cell by cell against an exact comparison-only winding model; plus the exhaustive scope of all ordered "
-              "pairs of the 200 oriented rectangles of a 4x4 cell grid. Non-trivial = the input contains collinear "
+              "pairs of the 200 oriented rectangles of a 4x4 cell grid (thorough tier: also the 450 of a 5x5 grid, 202,500 pairs). Non-trivial = the input contains collinear "
               "overlapping edges, a repeated point, or two vertices at one location; distinct = distinct 64-bit hash "
               "of the canonical case encoding"),
         assumptions=["oracle: per-cell winding by comparisons only, exact __int128 areas", "|coordinates| <= 2^60"],
